@@ -1633,6 +1633,447 @@ def part_cond(ctx, N):
 
 
 # ------------------------------------------------------------------------------------------------
+# part II (E52): complex Krylov process, restart loop of approximate_spectral_radius, condest, cond
+#                vs Model/ExtC19TCx.lean run in binary64 pairs (ops ext_c19t_*)
+# ------------------------------------------------------------------------------------------------
+
+EIG_RES = 1e-10          # accepted residual of a LAPACK eigenpair of the small H, relative to ||A||_2
+
+
+def _cbits(v):
+    from common import float_bits
+    z = np.asarray(v, dtype=complex).ravel()
+    return ','.join(f'{float_bits(x.real)},{float_bits(x.imag)}' for x in z) if z.size else '-'
+
+
+def _cmat(M):
+    M = np.asarray(M, dtype=complex)
+    return ';'.join(_cbits(r) for r in M) if M.size else '-'
+
+
+def _pcvec(tok):
+    import struct
+    if tok == '-':
+        return np.zeros(0, dtype=complex)
+    f = np.array([struct.unpack('<d', struct.pack('<Q', int(t)))[0] for t in tok.split(',')])
+    return f[0::2] + 1j * f[1::2]
+
+
+def _pcmat(tok):
+    return [] if tok == '-' else [_pcvec(r) for r in tok.split(';')]
+
+
+def _pfloat(tok):
+    import struct
+    return struct.unpack('<d', struct.pack('<Q', int(tok)))[0]
+
+
+class _Recorder2:
+    """wraps linalg._approximate_eigenvalues: arguments and results (incl. the LAPACK eigenpairs of H) of every call,
+    real or complex"""
+
+    def __init__(self, L):
+        self.L, self.orig, self.calls = L, L._approximate_eigenvalues, []
+
+    def __enter__(self):
+        from scipy.sparse.linalg import aslinearoperator
+
+        def wrapped(A, maxiter, symmetric=None, initial_guess=None):
+            n = A.shape[0]
+            if initial_guess is None:       # the code draws rand(n, 1) (+ 1j rand(n, 1) for complex A): read it off the generator
+                st = np.random.get_state()
+                v0 = np.random.rand(n, 1)
+                if aslinearoperator(A).dtype == complex:
+                    v0 = v0 + 1.0j * np.random.rand(n, 1)
+                np.random.set_state(st)
+            else:
+                v0 = np.array(initial_guess).copy()
+            out = self.orig(A, maxiter, symmetric, initial_guess)
+            self.calls.append({'v0': np.asarray(v0).ravel().copy(), 'maxiter': int(maxiter), 'symmetric': bool(symmetric), 'n': n,
+                               'H': np.array(out[2], dtype=complex), 'V': [np.array(v, dtype=complex).ravel() for v in out[3]],
+                               'flag': bool(out[4]), 'm': int(len(out[1])), 'ev': np.array(out[1], dtype=complex),
+                               'evect': np.array(out[0], dtype=complex)})
+            return out
+        self.L._approximate_eigenvalues = wrapped
+        return self
+
+    def __exit__(self, *a):
+        self.L._approximate_eigenvalues = self.orig
+
+
+def carn_matrix(rng, t):
+    n = int(rng.integers(1, 11))
+    kind = ['herm', 'cgen', 'realsym', 'lowgrade', 'hpd', 'realgen', 'herm', 'cgen', 'realsym', 'skew'][t % 10]
+    cplx = kind in ('herm', 'cgen', 'lowgrade', 'hpd', 'skew')
+    M = rng.standard_normal((n, n)) + (1j * rng.standard_normal((n, n)) if cplx else 0)
+    if kind in ('herm', 'hpd', 'realsym'):
+        M = (M + M.conj().T) / 2
+        if kind == 'hpd':
+            M = M @ M.conj().T + 0.1 * np.eye(n)
+    elif kind == 'lowgrade':
+        k = int(rng.integers(1, n + 1))
+        Q, _ = np.linalg.qr(M)
+        lam = np.zeros(n)
+        lam[:k] = rng.integers(1, 4, size=k) * rng.choice([1, -1], size=k)
+        M = (Q * lam) @ Q.conj().T
+        M = (M + M.conj().T) / 2
+    elif kind == 'skew':             # i * Hermitian: normal, purely imaginary spectrum, not Hermitian
+        M = 1j * (M + M.conj().T) / 2
+    M = M * float(rng.choice([1e-3, 1.0, 1.0, 50.0, 1.0, 2e-10]))
+    return np.ascontiguousarray(M), kind
+
+
+def _e52_case(rng, t):
+    M, kind = carn_matrix(rng, t)
+    n = M.shape[0]
+    herm = kind in ('herm', 'hpd', 'realsym', 'lowgrade')
+    mode = ['asr', 'carn', 'condest', 'asr', 'cond', 'asr', 'carn', 'condest'][t % 8]
+    fmt = ['dense', 'csr', 'csc'][(t // 3) % 3]
+    c = {'op': 'e52', 'mode': mode, 'kind': kind, 'n': n, 'fmt': fmt, 'M': _encv(M), 'complex': bool(np.iscomplexobj(M)),
+         'herm': herm, 'seed': int(rng.integers(0, 2 ** 31 - 1))}
+
+    def guess():
+        g = rng.random(n) + (0 if rng.random() < 0.7 else -0.5)
+        if rng.random() < (0.7 if c['complex'] else 0.25):       # a complex guess for a real matrix is cast to real by the code
+            g = g + 1j * (rng.random(n) - 0.3)
+        return _encv(g * float(rng.choice([1.0, 1.0, 7.0, 1e-3])))
+
+    if mode == 'carn':
+        c['symmetric'] = bool(herm and rng.random() < 0.5)
+        c['maxiter'] = int(rng.choice([1, 2, 3, 5, n, n + 2, 15]))
+        c['v0'] = guess()
+    elif mode == 'asr':
+        c['maxiter'] = int(rng.choice([1, 2, 3, 4, 15]))
+        c['restart'] = int(rng.choice([0, 1, 2, 3, 5]))
+        c['tol'] = float(rng.choice([1e-1, 1e-2, 1e-4, 1e-8]))
+        c['v0'] = guess() if rng.random() < 0.75 else None
+        c['return_vector'] = bool(rng.random() < 0.5)
+        r = rng.random()
+        if r < 0.04:
+            c['maxiter'] = int(rng.choice([0, -1]))
+        elif r < 0.08:
+            c['restart'] = -int(rng.integers(1, 3))
+        elif r < 0.12:
+            c['v0'] = _encv(rng.random(n + int(rng.choice([1, 2])) if rng.random() < 0.7 or n == 1 else n - 1))
+    elif mode == 'condest':
+        c['symmetric'] = bool(herm and rng.random() < 0.5)
+        c['maxiter'] = int(rng.choice([1, 2, n, 25]))
+    return c
+
+
+def _e52_mat(c):
+    n = c['n']
+    M = _decv(c['M'], c['complex']).reshape(n, n)
+    if not c['complex']:
+        M = np.array(M.real, dtype=float)
+    A = M.copy() if c['fmt'] == 'dense' else sp.csr_array(M).asformat(c['fmt'])
+    return M, A
+
+
+def _e52_run(c):
+    """the real calls of one case -> (recorded calls, dense operator of the Krylov process, result or exception name)"""
+    from pyamg.util import linalg as L
+    n = c['n']
+    M, A = _e52_mat(c)
+    v0 = None if c.get('v0') is None else _decv(c['v0'])
+    np.random.seed(c['seed'])
+    res = None
+    with _Recorder2(L) as rec, warnings.catch_warnings():
+        warnings.simplefilter('ignore')
+        try:
+            if c['mode'] == 'carn':
+                g = np.array(v0.reshape(-1, 1), dtype=np.result_type(v0.dtype, M.dtype))
+                L._approximate_eigenvalues(A, c['maxiter'], symmetric=c['symmetric'], initial_guess=g)
+            elif c['mode'] == 'asr':
+                res = L.approximate_spectral_radius(A, tol=c['tol'], maxiter=c['maxiter'], restart=c['restart'],
+                                                    initial_guess=None if v0 is None else v0.copy(),
+                                                    return_vector=c['return_vector'])
+            elif c['mode'] == 'condest':
+                res = L.condest(A, maxiter=c['maxiter'], symmetric=c['symmetric'])
+            else:
+                res = L.cond(A)
+        except ValueError as e:
+            res = {'raised': 'ValueError', 'msg': str(e)}
+    op = M.conj().T @ M if (c['mode'] == 'condest' and not c['symmetric']) else M
+    return rec.calls, op, res
+
+
+def _growth(call, nA):
+    """error amplification of one Krylov process: prod_j (1 + ||A|| / H[j+1, j]) per column"""
+    g = [1.0]
+    for j in range(call['m']):
+        g.append(g[-1] * (1 + nA / max(abs(call['H'][j + 1, j]), 1e-300)))
+    return g
+
+
+def _carn_compare(call, nA, start_bound, flag, vs, cols):
+    """None / 'skip' / text: one recorded call vs (flag, V, H columns) of the model; start_bound = error of the start vector"""
+    H, V, m = call['H'], call['V'], call['m']
+    if not np.all(np.isfinite(H)) or m == 0:
+        return 'skip:nonfinite'
+    g = _growth(call, nA)
+    bounds = [start_bound * x for x in g]
+    if not bounds[m - 1] <= ARN_MAX_BOUND:
+        return 'skip:bound'
+    hs = [float(abs(H[j + 1, j])) for j in range(m)]
+    undecided = abs(hs[-1] - BREAKDOWN) <= 10 * bounds[m - 1] * nA
+    if len(cols) != m:
+        return 'skip:undecided-cols' if undecided else f'{len(cols)} columns in the model, {m} in the code'
+    for j, col in enumerate(cols):
+        if len(col) != j + 2:
+            return f'column {j} of the model has {len(col)} entries'
+        if np.abs(H[:j + 2, j] - col).max() > bounds[j] * nA:
+            return f'column {j} of H differs by {np.abs(H[:j + 2, j] - col).max():.3e} (tolerance {bounds[j] * nA:.3e})'
+        if np.abs(H[j + 2:, j]).max(initial=0.0) != 0.0:
+            return f'column {j} of H of the code has entries below row {j + 1}'
+    if undecided or vs is None:
+        return None
+    if int(flag) != int(call['flag']) or len(vs) != len(V):
+        return f'model: flag {flag}, {len(vs)} vectors; code: flag {call["flag"]}, {len(V)} vectors'
+    first = m + 1 - len(V) if not (call['symmetric'] and call['flag']) else m - len(V)
+    for i, (a, b) in enumerate(zip(vs, V)):
+        j = first + i
+        if j == m and call['flag']:
+            if (hs[-1] == 0.0) == (abs(cols[-1][-1]) == 0.0) and abs(np.linalg.norm(a) - np.linalg.norm(b)) > 1e-8:
+                return f'the vector appended at breakdown has norm {np.linalg.norm(b)!r} in the code, {np.linalg.norm(a)!r} in the model'
+            continue
+        if not bounds[j] <= ARN_MAX_BOUND:
+            continue
+        if np.abs(a - b).max() > bounds[j]:
+            return f'vector {j} of the basis differs by {np.abs(a - b).max():.3e} (tolerance {bounds[j]:.3e})'
+    return None
+
+
+def _eig_quality(call, nA):
+    """largest residual |H y - theta y| / |y| of the recorded LAPACK eigenpairs"""
+    m = call['m']
+    Hm = call['H'][:m, :m]
+    r = 0.0
+    for k in range(m):
+        y = call['evect'][:, k]
+        r = max(r, float(np.linalg.norm(Hm @ y - call['ev'][k] * y) / max(np.linalg.norm(y), 1e-300)))
+    return r
+
+
+def _oracle(call):
+    m = call['m']
+    return ';'.join([_cbits(call['ev'])] + [_cbits(call['evect'][:, k]) for k in range(m)])
+
+
+def _e52_line(c, calls, op):
+    """protocol line of one case (None: nothing to ask) and the tolerance data"""
+    nA = max(float(np.linalg.norm(op, 2)), 1e-300) if op.size else 1.0
+    M, _ = _e52_mat(c)
+    btol = _cbits([BREAKDOWN])
+    if c['mode'] == 'carn':
+        cl = calls[0]
+        return f'ext_c19t_arnoldi {_cmat(op)} {btol} {int(cl["symmetric"])} {cl["maxiter"]} {_cbits(cl["v0"])}', {'nA': nA}
+    if c['mode'] == 'asr':
+        g = 1.0
+        for cl in calls:
+            g *= _growth(cl, nA)[-2] if cl['m'] else 1.0
+        bound = ARN_TOL_EPS * g
+        vt = (10 * min(bound, 1.0) + 10 * EIG_RES) * nA
+        guess = c.get('v0')
+        if guess is None:          # the code draws the guess itself: the first recorded start vector is that draw
+            gv = calls[0]['v0'] if calls else np.zeros(c['n'])
+        else:
+            gv = _decv(guess)
+        orc = '|'.join(_oracle(cl) for cl in calls) if calls else '-'
+        line = (f'ext_c19t_asr {_cmat(M)} {btol} {_cbits([c["tol"]])} {_cbits([vt * vt])} {c["maxiter"]} {c["restart"]} '
+                f'{0 if c["complex"] else 1} {_cbits(gv)} {orc}')
+        return line, {'nA': nA, 'bound': bound}
+    if c['mode'] == 'condest':
+        cl = calls[0]
+        bound = ARN_TOL_EPS * (_growth(cl, nA)[-2] if cl['m'] else 1.0)
+        vt = (10 * min(bound, 1.0) + 10 * EIG_RES) * nA
+        evect = ';'.join(_cbits(cl['evect'][:, k]) for k in range(cl['m']))
+        line = (f'ext_c19t_condest {_cmat(M)} {btol} {_cbits([vt * vt])} {int(c["symmetric"])} {cl["maxiter"]} {_cbits(cl["v0"])} '
+                f'{_cbits(cl["ev"])} {evect}')
+        return line, {'nA': nA, 'bound': bound}
+    # cond: singular triples from the same LAPACK driver the code calls
+    from scipy.linalg import svd
+    U, S, Vh = svd(M)
+    V = Vh.conj().T
+    n = c['n']
+    tol = 1e-11 * n * (1 + nA)
+    line = (f'ext_c19t_cond {_cmat(M)} {_cmat(U.T)} {_cmat(V.T)} {_cbits(S)} {_cbits([tol * tol])}')
+    return line, {'nA': nA, 'S': S}
+
+
+def _e52_judge(ctx, c, calls, op, res, info, reply):
+    """compare the model reply with the real run; returns None / 'skip' / text"""
+    nA = info['nA']
+    mode = c['mode']
+    if mode == 'carn':
+        if reply in ('none', 'bad-size', 'bad-op'):
+            return f'model answered {reply}'
+        f, vs, cols = reply.split(' ')
+        return _carn_compare(calls[0], nA, ARN_TOL_EPS, f, _pcmat(vs), _pcmat(cols))
+    if mode == 'asr':
+        raised = isinstance(res, dict)
+        if reply.startswith('err'):
+            why = reply[4:]
+            if why.startswith('expected') or why.startswith('initial_guess'):
+                return None if raised else f'model rejects the arguments ({why}), the code returned {res!r}'
+            if raised:
+                return f'model: {why}; code raised {res["msg"]}'
+            if why == 'oracle-residual' and (not info['bound'] <= ARN_MAX_BOUND or max(_eig_quality(cl, nA) for cl in calls) > EIG_RES * nA):
+                return 'skip:oracle'
+            return f'model refused: {why}'
+        if raised:
+            return f'code raised ValueError({res["msg"]}), model returned a value'
+        if not info['bound'] <= ARN_MAX_BOUND or any(not np.all(np.isfinite(cl['H'])) for cl in calls):
+            return 'skip:bound'
+        toks = reply.split(' ')
+        rho_m, cyc = _pfloat(toks[1]), toks[2:]
+        bound = ARN_TOL_EPS
+        und = False
+        for k, cl in enumerate(calls):
+            if k >= len(cyc):
+                return 'skip:und-passes' if und else f'the model made {len(cyc)} passes, the code {len(calls)}'
+            fl, idx, th, er, cv, nx, cols = cyc[k].split('/')
+            bad = _carn_compare(cl, nA, bound, fl, None, _pcmat(cols))
+            if bad:
+                return bad if bad.startswith('skip') else f'pass {k}: {bad}'
+            g = _growth(cl, nA)
+            bound = bound * g[-2]
+            m = cl['m']
+            aev = np.abs(cl['ev'])
+            mi = int(aev.argmax())
+            if int(idx) != mi:
+                if abs(aev[int(idx)] - aev[mi]) <= 1e-12 * aev[mi]:
+                    return 'skip:tie'
+                return f'pass {k}: max_index {idx} in the model, {mi} in the code'
+            th, er = _pcvec(th)[0], _pcvec(er)[0]
+            err_c = cl['H'][m, m - 1] * cl['evect'][-1, mi]
+            if abs(th - cl['ev'][mi]) > 0 or abs(er - err_c) > bound * nA * 10:
+                return f'pass {k}: theta / error {th!r} / {er!r} in the model, {cl["ev"][mi]!r} / {err_c!r} in the code'
+            nxt = calls[k + 1]['v0'] if k + 1 < len(calls) else (np.asarray(res[1]).ravel() if c['return_vector'] else None)
+            if nxt is not None and np.abs(_pcvec(nx) - nxt).max() > 10 * bound * max(1.0, float(np.abs(nxt).max())):
+                return f'pass {k}: restart vector differs by {np.abs(_pcvec(nx) - nxt).max():.3e} (tolerance {10 * bound:.3e})'
+            ratio = abs(err_c) / abs(cl['ev'][mi]) if abs(cl['ev'][mi]) > 0 else np.inf
+            near = np.isfinite(ratio) and abs(ratio - c['tol']) <= 100 * bound * max(1.0, nA / max(abs(cl['ev'][mi]), 1e-300))
+            hm = abs(cl['H'][m, m - 1])
+            near = near or abs(hm - BREAKDOWN) <= 10 * bound * nA
+            stop_c = (k + 1 == len(calls))
+            stop_m = (cv == '1' or fl == '1') or k + 1 == c['restart'] + 1
+            if near:
+                und = True
+            if stop_c != (k + 1 == len(cyc)) and not und:
+                return f'pass {k}: the code {"stops" if stop_c else "goes on"}, the model {"stops" if stop_m else "goes on"} (converged {cv}, flag {fl})'
+            if und and stop_c != (k + 1 == len(cyc)):
+                return 'skip:und-stop'
+        if len(cyc) != len(calls):
+            return 'skip:und-passes' if und else f'the model made {len(cyc)} passes, the code {len(calls)}'
+        r = float(np.real(res[0] if c['return_vector'] else res))
+        if abs(r - rho_m) > 1e-12 * max(abs(r), 1e-300):
+            return f'returned value {r!r}, model {rho_m!r}'
+        return None
+    if mode == 'condest':
+        if reply.startswith('err'):
+            if reply[4:] == 'oracle-residual' and (not info['bound'] <= ARN_MAX_BOUND or _eig_quality(calls[0], nA) > EIG_RES * nA):
+                return 'skip:oracle'
+            return f'model refused: {reply[4:]}'
+        toks = reply.split(' ')
+        est, mx, mn, fl, cols = _pfloat(toks[1]), _pfloat(toks[2]), _pfloat(toks[3]), toks[4], _pcmat(toks[5])
+        bad = _carn_compare(calls[0], nA, ARN_TOL_EPS, fl, None, cols)
+        if bad:
+            return bad
+        r = float(np.real(res))
+        if not np.isfinite(r) and not np.isfinite(est):
+            return None
+        if abs(r - est) > 1e-12 * max(abs(r), 1e-300):
+            return f'condest returned {r!r}, model {est!r} (max {mx!r}, min {mn!r})'
+        return None
+    # cond
+    r = float(np.real(res))
+    if reply.startswith('err'):
+        if info['S'].min() <= 1e-8 * max(info['S'].max(), 1e-300):
+            return 'skip:singular'
+        return f'model refused the singular triples of LAPACK: {reply}'
+    cm = _pfloat(reply.split(' ')[1])
+    if not np.isfinite(r) and not np.isfinite(cm):
+        return None
+    if abs(r - cm) > 1e-12 * max(abs(r), 1e-300):
+        return f'cond returned {r!r}, max/min of the verified singular values {cm!r}'
+    return None
+
+
+def _e52_property(ctx, c, calls, op, res):
+    """the property on the real code for this input, independent of the model (called when the correspondence broke)"""
+    M, _ = _e52_mat(c)
+    mode = c['mode']
+    if isinstance(res, dict):
+        bad_args = (c['mode'] == 'asr' and (c['maxiter'] < 1 or c['restart'] < 0 or (c.get('v0') is not None and len(c['v0']) != c['n'])))
+        if not bad_args:
+            ctx.violation(f'{mode} raised {res["raised"]}: {res["msg"]} on valid arguments (n={c["n"]}, {c["kind"]})', c)
+        return
+    if mode in ('carn', 'asr') and c['herm']:
+        rho = float(np.abs(np.linalg.eigvalsh(M)).max())
+        for k, cl in enumerate(calls):
+            if cl['m'] and np.all(np.isfinite(cl['ev'])):
+                ev = float(np.abs(cl['ev']).max())
+                if ev > rho * (1 + 1e-8) + 1e-14:
+                    ctx.violation(f'_approximate_eigenvalues ({mode}, {c["kind"]}, n={c["n"]}): largest Ritz value {ev!r} exceeds the spectral '
+                                  f'radius {rho!r}', dict(c, cycle=k), fkey=FK_RHO if ev <= rho * 1.01 else None)
+        if mode == 'asr':
+            r = float(np.real(res[0] if c['return_vector'] else res))
+            if r > rho * (1 + 1e-8) + 1e-14:
+                ctx.violation(f'approximate_spectral_radius({c["kind"]}, n={c["n"]}) = {r!r} exceeds the spectral radius {rho!r}', c,
+                              fkey=FK_RHO if r <= rho * 1.01 else None)
+    if mode in ('condest', 'cond'):
+        kappa = float(np.linalg.cond(M, 2))
+        r = float(np.real(res))
+        if np.isfinite(kappa) and kappa < 1e8:
+            if mode == 'cond' and not abs(r - kappa) <= 1e-8 * kappa:
+                ctx.violation(f'cond(n={c["n"]}, {c["kind"]}) = {r!r}, 2-norm condition number {kappa!r}', c)
+            if mode == 'condest' and not c['symmetric'] and r > kappa * (1 + 1e-6):
+                ctx.violation(f'condest(n={c["n"]}, {c["kind"]}, maxiter={c["maxiter"]}) = {r!r} exceeds the 2-norm condition number {kappa!r}', c)
+
+
+def part_e52(ctx, N):
+    rng = ctx.np_rng
+    cases = [_e52_case(rng, t) for t in range(N)]
+    lines, owners = [], []
+    for c in cases:
+        try:
+            calls, op, res = _e52_run(c)
+        except Exception as e:
+            ctx.case(key=_key('e52', c), nontrivial=c['n'] >= 2)
+            ctx.violation(f'{c["mode"]} ({c["kind"]}, n={c["n"]}, {c["fmt"]}) raised {type(e).__name__}: {e}', c)
+            continue
+        if c['mode'] in ('carn', 'condest') and not calls:
+            continue
+        line, info = _e52_line(c, calls, op)
+        lines.append(line)
+        owners.append((c, calls, op, res, info))
+    outs = _lean(ctx, lines) if lines else []
+    for (c, calls, op, res, info), o in zip(owners, outs):
+        n = c['n']
+        ctx.case(key=_key('e52', c['mode'], c['M'], c.get('v0'), c['seed'], c.get('maxiter'), c.get('restart'), c.get('symmetric'),
+                          c.get('tol'), c['fmt']), nontrivial=n >= 2)
+        ctx.feat('op:' + {'carn': 'ext_c19t_arnoldi', 'asr': 'ext_c19t_asr', 'condest': 'ext_c19t_condest', 'cond': 'ext_c19t_cond'}[c['mode']])
+        ctx.feat(f'e52:{c["mode"]}:{c["kind"]}')
+        if c['mode'] == 'asr':
+            ctx.feat(f'e52:asr:passes={len(calls)}')
+            if isinstance(res, dict):
+                ctx.feat('e52:asr:rejected-arguments')
+            if any(np.abs(cl['v0'].imag).max(initial=0.0) > 0 for cl in calls[1:]) and not c['complex']:
+                ctx.feat('e52:asr:complex-restart-vector-of-real-matrix')
+        bad = _e52_judge(ctx, c, calls, op, res, info, o)
+        if bad is not None and bad.startswith('skip'):
+            ctx.near_skipped += 1
+            ctx.feat(f'e52:structure-only:{c["mode"]}:{bad[5:]}')
+            continue
+        if bad is None:
+            continue
+        ctx.corr({'carn': 'ext_c19t_arnoldi', 'asr': 'ext_c19t_asr', 'condest': 'ext_c19t_condest', 'cond': 'ext_c19t_cond'}[c['mode']],
+                 c, o[:300], {'result': repr(res)[:200], 'passes': len(calls)}, bad)
+        _e52_property(ctx, c, calls, op, res)
+
+
+# ------------------------------------------------------------------------------------------------
 # driver
 # ------------------------------------------------------------------------------------------------
 
